@@ -14,8 +14,10 @@ pub fn minimise(cfg: &Config, ops: &[Op], at_op: Option<usize>, budget: usize, t
     let mut cfg = cfg.clone();
     let mut ops: Vec<Op> = ops.to_vec();
     let mut tried = 0usize;
+    let t0 = std::time::Instant::now();
     let mut try_it = |cfg: &Config, ops: &[Op], tried: &mut usize| -> Option<Vec<usize>> {
-        if *tried >= budget {
+        // candidate budget and a wall-clock cap (the cap only bounds how far shrinking goes)
+        if *tried >= budget || t0.elapsed().as_secs() > 90 {
             return None;
         }
         *tried += 1;
@@ -221,6 +223,20 @@ fn simplifications(op: &Op) -> Vec<Op> {
                 let mut qs = queries.clone();
                 qs.remove(k);
                 out.push(Op::Pollute { t: *t, lang: lang.clone(), titles: titles.clone(), queries: qs });
+            }
+            for k in 0..titles.len() {
+                for x in shrink_string(&titles[k]).into_iter().take(40) {
+                    let mut ts = titles.clone();
+                    ts[k] = x;
+                    out.push(Op::Pollute { t: *t, lang: lang.clone(), titles: ts, queries: queries.clone() });
+                }
+            }
+            for k in 0..queries.len() {
+                for x in shrink_string(&queries[k]).into_iter().take(40) {
+                    let mut qs = queries.clone();
+                    qs[k] = x;
+                    out.push(Op::Pollute { t: *t, lang: lang.clone(), titles: titles.clone(), queries: qs });
+                }
             }
         }
         Op::Converge { stores, q } => {
